@@ -303,9 +303,9 @@ def fteik2d(slow, dz, dx, zsrc, xsrc, nsweep=2, grad=False):
     zsa = zsrc / dz
     xsa = xsrc / dx
 
-    # Try to handle edges simply for source due to precision
-    zsa = zsa - eps if zsa >= nz else zsa
-    xsa = xsa - eps if xsa >= nx else xsa
+    # Source on the far edge lies exactly on the last grid line
+    zsa = float(nz) if zsa >= nz else zsa
+    xsa = float(nx) if xsa >= nx else xsa
 
     # Grid points to initialize source
     zsi = min(int(zsa), nz - 1)
